@@ -107,6 +107,10 @@ def routing_family(tier):
     if not os.environ.get("VERIF_SKIP_MC"):
         ccfgs = ["q_mig", "q_fo", "q_live_fo"] if tier == "quick" else ["q_mig", "q_fo", "q_live_fo", "q_live_mig", "t_mig", "t_all", "t_fo", "t_mig2", "t_faults2", "t_live_mig", "t_live_fo"]
         cms = [tlc_model_check("coord_" + c, "Coord.tla", "Coord_MC_%s.cfg" % c, workers=8, timeout=900 if tier == "quick" else 5000, xmx="12g", extra="") for c in ccfgs]
+        # design observation kept as an expected counterexample (see the comment at the end of ControlPlane.tla)
+        r = tlc_model_check("controlplane_obs", "ControlPlane.tla", "ControlPlane_MC_obs.cfg", workers=2, timeout=300, xmx="2g", extra="")
+        if r.get("ok") or not r.get("violated"):
+            raise ToolError("ControlPlane.tla no longer shows the stale-message-after-recovery observation")
         for v in ("src_even_if_dst_failed", "no_quorum", "skip_cluster_on_old_repl"):
             r = tlc_model_check("coord_bad_" + v, "Coord.tla", "Coord_MC_bad_%s.cfg" % v, workers=4, timeout=600, xmx="4g", extra="")
             if r.get("ok") or not r.get("violated"):
